@@ -603,6 +603,8 @@ def _evalbody(ctx: Ctx, h: FuncInfo, body, env: dict):
             continue
         if isinstance(st, ast.Pass):
             continue
+        if isinstance(st, (ast.Assign, ast.AnnAssign)) and all(isinstance(t_, ast.Name) for t_ in (st.targets if isinstance(st, ast.Assign) else [st.target])):
+            continue  # a local bound once: looked up through its defining expression when it is used
         if isinstance(st, ast.Return):
             return _evalcond(ctx, h, st.value, env) if st.value is not None else None
         if isinstance(st, ast.If):
